@@ -251,8 +251,10 @@ def run(chk):
     n_sites = 0
     for f in repo.all_funcs():
         for c in find_calls(f.node, ".unsubscribe"):
-            n_sites += 1
             nargs = len(c.args) + len(c.keywords)
+            if nargs == 0 and not (dotted(c.func.value) or "").split(".")[-1].endswith("network"):
+                continue                  # Network.unsubscribe needs the CAN id: a call without arguments is another class's method of that name
+            n_sites += 1
             chk.check(nargs >= 2, "R7", f"{f.key} | {src(c)}", f.loc(c),
                       "unsubscribe(id) without a callback removes every handler of that id, including those of other owners")
     chk.floor("R7", n_sites, 3, "unsubscribe call sites")
